@@ -198,3 +198,40 @@ Require Import Proofs.PsiGenDesc2.
 Theorem C09_descriptors_are_source : descriptor_parsers_tie.
 Proof. exact descriptor_loop_is_source. Qed.
 Print Assumptions C09_descriptors_are_source.
+
+(* ---- the writers of the muxed sections are the source ----
+   C09_mux_pat / C09_mux_pmt speak about enc_psi_section / write_psi_data of Model/Psi.v. Those are, for every argument, what
+   go/gen (psiwritegen.go) translates from the CURRENT source of writePSISection / writePSIData (and, below them, of
+   writePSISectionSyntax, the PAT / PMT writers, calcPSISectionLength and the whole descriptor writer of descriptor.go) into
+   Gen/PsiWriteGen.v: the same items handed to the BitsWriter in the same order (up to the bits a w-bit write ignores), the
+   returned count, the error class, a panic where the model panics (wfn_sim, Proofs/PsiWriteGenBase.v). In particular the
+   CRC_32 item: the Go code accumulates it in a write callback registered in front of the table_id write; the translation
+   keeps the items handed over since the registration in a ghost variable and reads the accumulator as updateCRC32 folded
+   over their bytes - registering the callback one write later, or feeding it one byte less, changes Gen/PsiWriteGen.v and
+   this theorem (Proofs/PsiWriteGenPsi.v) stops checking. *)
+Require Import Gen.MuxGen Gen.WriteGen Gen.PsiWriteGen Proofs.WriteGenBase Proofs.PsiWriteGenBase Proofs.PsiWriteGenPsi
+  Proofs.PsiWriteGenAll.
+Theorem C09_writers_are_source :
+  (forall s, gcalcPSISectionLength s = ([], res_opt (calc_psi_section_length_res s))) /\
+  (forall s, wfn_sim (gwritePSISection s) (enc_psi_section s) (section_written s)) /\
+  (forall d, wfn_sim (gwritePSIData d) (enc_psi_data d) (psi_written d)) /\
+  (forall d, match write_psi_data d with
+             | Ok bs => exists l, gwritePSIData d = (l, Some (psi_written d, ENil)) /\
+                                  bytes_of_items (map snd l) = bs /\ nd l = true
+             | Err c => exists l a e, gwritePSIData d = (l, Some (a, e)) /\ werr e = Some c
+             | Panic => exists l, gwritePSIData d = (l, None)
+             end).
+Proof.
+  exact (conj (proj1 (proj2 psi_writers_are_source))
+        (conj (proj1 (proj2 (proj2 (proj2 (proj2 (proj2 (proj2 (proj2 psi_writers_are_source))))))))
+        (conj (proj2 (proj2 (proj2 (proj2 (proj2 (proj2 (proj2 (proj2 psi_writers_are_source))))))))
+              psi_writer_is_source))).
+Qed.
+Print Assumptions C09_writers_are_source.
+(* the translated writePSIData runs: a PMT with two descriptors; 30 bytes, the model's; the CRC residue over the section is 0 *)
+Example C09_writers_are_source_inhabited :
+  snd (gwritePSIData ex_psi) = Some (30, ENil) /\
+  Ok (bytes_of_items (map snd (fst (gwritePSIData ex_psi)))) = write_psi_data ex_psi /\
+  length (bytes_of_items (map snd (fst (gwritePSIData ex_psi)))) = 30%nat /\
+  computeCRC32 (firstn 29 (skipn 1 (bytes_of_items (map snd (fst (gwritePSIData ex_psi)))))) = 0.
+Proof. exact psi_writer_runs. Qed.
